@@ -90,6 +90,7 @@ Inductive sop :=
 | SDelDDoc (coll ddoc : string)
 | SView (coll ddoc view : string) (p : vparams)
 | SExpire                        (* the expiry timer fires (bucket.doExpiration) *)
+| SDumpKeys (coll : string) (start : N)       (* a dump feed with KeysOnly: the same events without body and xattrs *)
 | SDraw (coll key : string) (op : kop) (b : N).
                                  (* the compare-and-swap loop of the call `op` that follows (Update, WriteUpdateWithXattrs,
                                     sub-document writes) began b transactions in all: those beyond what the call itself
@@ -388,6 +389,10 @@ Definition same_ddoc (cid : N) (ddoc : string) (views : list (string * N)) (vs :
   && forallb (fun nv => existsb (fun c => String.eqb (fst c) (fst nv) && (snd c =? snd nv)) cur) views
   && forallb (fun c => existsb (fun nv => String.eqb (fst c) (fst nv) && (snd c =? snd nv)) views) cur.
 
+(* what a KeysOnly feed is given of an event: opcode, key, CAS, expiry, revision, data type - no body, no xattrs *)
+Definition strip_value (f : fevent) : fevent :=
+  mkFevent (f_op f) (f_key f) "" [] (f_json f) false (f_cas f) (f_exp f) (f_rev f) (f_coll f).
+
 Definition marker (op : fopcode) : fevent := mkFevent op "" "" [] false false 0 0 0 0.
 
 Definition attempts_extra (s : store) (x : sctx) (coll key : string) (op : kop) (b : N) : N :=
@@ -476,6 +481,11 @@ Definition sstep (s : store) (x : sctx) (o : sop) : sres :=
   | SExpire =>
       let '(s', evs) := expire_colls s x (map fst (s_colls s)) [] in
       mkSres s' ROk evs []
+  | SDumpKeys coll start =>
+      match coll_id s coll with
+      | Some cid => mkSres s ROk [] (marker FBegin :: map strip_value (backfill_events s cid start) ++ [marker FEnd])
+      | None => mkSres s (RErr EOther) [] []
+      end
   | SDraw coll key op b =>
       let n := attempts_extra s x coll key op b in
       mkSres (mkStore (s_docs s) (s_colls s) (s_nextcoll s) (s_lastcas s)
